@@ -9,5 +9,6 @@ CONSTANTS
   TrackContent = FALSE
   MaxInserts = 0
   ExceededUsesCapacity = FALSE
+  GenLen = 0
 INVARIANTS Bookkeeping VolumeBound LiveBound2
 CHECK_DEADLOCK FALSE
